@@ -172,6 +172,7 @@ type partition struct {
 	encryptionHandler             encryption.Codec
 	consumersMu                   sync.Mutex
 	consumers                     map[string]*groupMember // Maps consumer groups to consumers
+	groupsCanceled                bool                    // Server stopped leading; group subscribers are refused (guarded by consumersMu)
 	*proto.Partition
 }
 
@@ -412,6 +413,14 @@ func (p *partition) Subscribe(ctx context.Context, req *client.SubscribeRequest)
 		// group.
 		p.consumersMu.Lock()
 		defer p.consumersMu.Unlock()
+
+		// The caller checked that this server is the partition leader, but
+		// the leadership may have been lost since. Consumer groups are only
+		// served by the partition leader, and nothing would cancel a group
+		// subscription registered after the server stopped leading.
+		if p.groupsCanceled {
+			return nil, status.New(codes.FailedPrecondition, "Server not partition leader")
+		}
 
 		// If there is an existing member of the group subscribed to the
 		// partition, check if the new subscriber has a more recent group
@@ -661,10 +670,12 @@ func (p *partition) removeGroupSubscriber(groupID string, sub *subscription) {
 // partition. Only the partition leader ensures a single member of a group is
 // subscribed, so these must not outlive the server's leadership. Subscribers
 // receive the same status as when the leader goes away, which causes clients
-// to resubscribe to the new leader.
+// to resubscribe to the new leader. Group subscriptions are refused from this
+// point until the server becomes the partition leader again.
 func (p *partition) cancelGroupSubscribers() {
 	p.consumersMu.Lock()
 	defer p.consumersMu.Unlock()
+	p.groupsCanceled = true
 	for groupID, member := range p.consumers {
 		p.srv.logger.Debugf("Canceling group %s consumer %s for partition %s: "+
 			"server no longer partition leader", groupID, member.consumerID, p)
@@ -1003,6 +1014,12 @@ func (p *partition) becomeLeader(epoch uint64) error {
 
 	p.isLeading = true
 	p.isFollowing = false
+
+	// Accept consumer group subscriptions again if they were refused while the
+	// server was a follower.
+	p.consumersMu.Lock()
+	p.groupsCanceled = false
+	p.consumersMu.Unlock()
 
 	// Notify the cursor manager if we've become leader for a cursor partition.
 	if p.Stream == cursorsStream {
